@@ -18,6 +18,25 @@ CHECKS = {
              "under C06/C14; the CLI exit-status clause is verified under the cli.main contract when listed in evidence.functions_under_contract; "
              "that two separate runs over the same bytes give the same severity is C13.",
         ref="§C10"),
+    "C02": dict(
+        text="Proof: loader.load is symbolically executed path by path against the statement: pickle.loads is reached only on paths whose "
+             "condition entails rank(severity) <= rank(threshold) (through Severity.__le__'s verified contract); the byte string executed is "
+             "term-equal to dumps() of the very object that was parsed and analysed, which equals the first pickle of the stream as parsed; "
+             "every raising path before that point has no unpickle event; UnsafeFileError carries to_dict() of the same results. The three "
+             "arming ways are lemma programs over the hook/context contracts showing pickle.load *is* loader.load with the default threshold. "
+             "All six thresholds are one symbolic parameter; streams are arbitrary.",
+        note="Trusted: pickle.loads is the stock unpickler (uninterpreted UNPICKLE); Pickled.load/dumps contracts are verified under C06; "
+             "precondition pickle.loads is the stock function (under the ML environment it is the allowlist unpickler, C07); exceptions from "
+             "resource exhaustion are not modelled.",
+        ref="§C02"),
+    "C12": dict(
+        text="Proof: run_hook / always_check_safety / activate_safe_ml_environment / remove_hook / FicklingContextManager.__init__, __enter__, "
+             "__exit__ / context.check_safety are verified against state-transformer contracts over the four pickle-module bindings with "
+             "exact frames; lifecycle lemmas L1-L3 are lemma programs executed symbolically over those contracts only (api_ops abstracts any "
+             "operation sequence by the union of the verified frames), so they hold for histories of any length and nesting depth.",
+        note="Trusted: import-time facts of fickling.hook are read from the live import; reading of 'protection in force' and of "
+             "'enter context' as construct+enter is stated in DESIGN C12; what the dispatched loaders do is C02/C07.",
+        ref="§C12"),
 }
 NA_REASON = "check not built yet (work in progress; see DESIGN.md)"
 
